@@ -88,11 +88,15 @@ type Scenario struct {
 	// in-handler (at the start of invocation DeadlineAt) | goroutine (on its own
 	// goroutine started there) | twice (before Serve and again in the handler).
 	// Nothing about the elements that follow may change.
-	Deadline   string   `json:"deadline,omitempty"`
-	DeadlineAt int      `json:"deadline_at,omitempty"`
-	Items      []string `json:"items"`            // raw pieces of the peer's input, in order; the input ends with EOF
-	Chunks     []int    `json:"chunks,omitempty"` // read sizes handed to the library, cycled; empty = unlimited
-	Programs   []Prog   `json:"programs"`         // invocation i runs Programs[i mod len]
+	// BadFromLast: the last element before the closing tag is a get/set IQ whose
+	// from is not an address: the handler must be given it like any other element
+	// (what Serve returns afterwards is not demanded).
+	BadFromLast bool     `json:"bad_from_request_last,omitempty"`
+	Deadline    string   `json:"deadline,omitempty"`
+	DeadlineAt  int      `json:"deadline_at,omitempty"`
+	Items       []string `json:"items"`            // raw pieces of the peer's input, in order; the input ends with EOF
+	Chunks      []int    `json:"chunks,omitempty"` // read sizes handed to the library, cycled; empty = unlimited
+	Programs    []Prog   `json:"programs"`         // invocation i runs Programs[i mod len]
 }
 
 // OwnReq describes the application's own pending request.
@@ -595,6 +599,12 @@ func generate(r *rand.Rand) Scenario {
 		kind := topKinds[r.Intn(len(topKinds))]
 		switch kind {
 		case "closing":
+			if r.Intn(4) == 0 {
+				idx++
+				sc.BadFromLast = true
+				sc.Items = append(sc.Items, fmt.Sprintf("<iq type='%s' id='bf%d' from='%s' e='%d'><q xmlns='urn:c08:x' e='%d'/></iq>",
+					pick(r, "get", "set"), idx, pick(r, "@example.org", "juliet@", "a@b/", "a@b@/c", "@"), idx, idx))
+			}
 			sc.Items = append(sc.Items, "</stream:stream>")
 		case "eof":
 		default:
@@ -658,8 +668,19 @@ func generate(r *rand.Rand) Scenario {
 			}
 		}
 		sb.WriteString("</iq>")
-		sc.Items = append(sc.Items[:at:at], append([]string{sb.String()}, sc.Items[at:]...)...)
-		sc.OwnReq = &OwnReq{Pos: at, ID: "own1", Consume: pick(r, "all", "all", "start", "partial", "cancel-hold", "cancel-hold")}
+		ins := []string{sb.String()}
+		pos := at
+		if r.Intn(2) == 0 {
+			// before the response, IQs with the request's id that are no responses
+			// (type missing or unknown): they go to the handler like anything else
+			for i, m := 0, 1+r.Intn(2); i < m; i++ {
+				ins = append([]string{fmt.Sprintf("<iq id='own1' e='%d'%s from='%s'><q xmlns='urn:c08:x' e='%d'/></iq>", ownReqMarker+2+i,
+					pick(r, "", " type='bogus'", " type=''", " type='RESULT'"), esc(g.o.Remote), ownReqMarker+2+i)}, ins...)
+				pos++
+			}
+		}
+		sc.Items = append(sc.Items[:at:at], append(ins, sc.Items[at:]...)...)
+		sc.OwnReq = &OwnReq{Pos: pos, ID: "own1", Consume: pick(r, "all", "all", "start", "partial", "cancel-hold", "cancel-hold")}
 		sc.AppClose = ""
 	} else if sc.Addr == "" && r.Intn(6) == 0 {
 		// a failing transport read: at a boundary between the pieces of the input
@@ -1677,6 +1698,8 @@ func Run(c *core.Case, sc Scenario) {
 		c.Violate("elem:start:missing", "%d invocations, the input has %d top-level elements before the %s; Serve returned %v", len(rec.invs), expected, termKey(ref), serveErr)
 	}
 	switch {
+	case sc.BadFromLast:
+		c.Count("outcome_after_request_with_unusable_from_not_demanded", 1)
 	case ref.Term == "closing":
 		c.Count("outcome_closing_tag", 1)
 		if rec.closedAt >= 0 {
@@ -1768,7 +1791,39 @@ func elemClass(e *refElem, ns string) string {
 	return "other"
 }
 
-func run(c *core.Case) { Run(c, generate(c.Rand)) }
+func run(c *core.Case) {
+	// one case in 150: XML declarations back to back in front of the peer's
+	// stream header (read by the library's own negotiator).  The second one is
+	// a processing instruction in the stream: the session must not come up.
+	if c.Rand.Intn(150) == 0 {
+		prologProbe(c)
+		return
+	}
+	Run(c, generate(c.Rand))
+}
+
+func prologProbe(c *core.Case) {
+	r := c.Rand
+	o := sess.Opts{S2S: r.Intn(3) == 0, Default: true}
+	if r.Intn(3) == 0 {
+		o = sess.Opts{ReceiveDefault: true}
+	}
+	o.HeaderPrefix = pick(r, `<?xml version="1.0"?>`, `<?xml version='1.0' encoding='UTF-8'?>`, `<?xml version="1.0"?><?xml version="1.0"?>`)
+	c.Sample(map[string]any{"kind": "prolog-probe", "prefix": o.HeaderPrefix, "s2s": o.S2S, "received": o.ReceiveDefault})
+	var p *sess.Pair
+	var err error
+	if c.Guard("session constructor", func() { p, err = sess.NewPair(o) }) {
+		return
+	}
+	if err == nil {
+		c.Violate("elem:outcome:declaration-after-declaration", "the peer's stream header was preceded by %q and one more XML declaration: a processing instruction in the stream, yet the session was established (state %v)", o.HeaderPrefix, p.S.State())
+		p.Peer.Close()
+		p.Lib.Close()
+		return
+	}
+	c.Count("prolog_probes_refused", 1)
+	c.Sig("prolog|%s|recv=%v", o.HeaderPrefix, o.ReceiveDefault)
+}
 
 func witness(sc Scenario) func(*core.Case) {
 	return func(c *core.Case) { Run(c, sc) }
@@ -1847,7 +1902,7 @@ func Prop() *core.Prop {
 			"read_fault_inside_element", "read_fault_after_keepalive", "read_fault_between_elements", "handler_returned_error_wrapping_eof",
 			"outcome_stream_error_with_foreign_child", "outcome_stream_error_with_several_texts",
 			"handler_returned_bare_eof", "bare_eof_with_element_partly_unread", "session_carried_on_after_handler_eof",
-			"close_deadline_set_before", "close_deadline_set_in-handler", "close_deadline_set_goroutine", "close_deadline_set_twice", "invocations_after_a_close_deadline_was_set",
+			"outcome_after_request_with_unusable_from_not_demanded", "prolog_probes_refused", "close_deadline_set_before", "close_deadline_set_in-handler", "close_deadline_set_goroutine", "close_deadline_set_twice", "invocations_after_a_close_deadline_was_set",
 			"app_close_before", "app_close_in-handler", "app_close_goroutine", "invocations_after_app_close",
 			"unfinished_element_with_write_after_app_close", "outcome_closing_tag_after_app_close",
 			"addr_update_neg", "addr_update_ready", "addr_bind", "bare_address_changed_before_serve",
